@@ -135,6 +135,7 @@ Section Main.
       destruct Hpcl as (Hcan & Hce & Hj).
       set (j := w_next w) in *. set (b := getw s j) in *.
       assert (Hij : i < j) by (apply (p_next _ _ _ _ _ _ s I i Ei)).
+      assert (Hij' : i <> w_next (getw s i)) by (unfold j, w in Hij; lia).
       assert (Hkj : k_cur (p_c s) < j).
       { pose proof (active_ge_kcur min max d data nw span s i I Ei Hactb). lia. }
       pose proof (p_sync _ _ _ _ _ _ s I j Hj Hkj) as Hsy. unfold sync_ok in Hsy. fold b in Hsy.
@@ -145,13 +146,13 @@ Section Main.
           apply (recv_inv H min max d data Hmin Hmax Hpos nw span Hspan s i v (SyncLoop c (w_sync b)) I Ei Hactb Hj Eh eq_refl).
           -- unfold pcl, emit_end. gsw s I. cbn [w_pc with_pc w_next w_emit]. split; [exact Hcan|]. split; [|exact Hj]. exact Hce.
           -- unfold sl. gsw s I. cbn [w_pc with_pc w_next]. gsw s I.
-             fold b. destruct (w_sync b) as [p|] eqn:Es; [|exact Logic.I]. cbn [recv_w w_cons w_emit].
+             change (getw s (w_next (getw s i))) with b. destruct (w_sync b) as [p|] eqn:Es; [|exact Logic.I]. cbn [recv_w w_cons w_emit].
              destruct (w_cons b =? 0) eqn:E0; [discriminate|]. apply Nat.eqb_neq in E0.
              split; [lia|]. split; [|exact Elt].
              replace (S (w_cons b) - 2) with (w_cons b - 1) by lia. symmetry. exact Hsy.
         * (* nothing in the bucket *)
           apply (pc_only_inv H min max d data nw span s i _ I Ei (with_pc_same H data w (After c 0))).
-          -- cbn. rewrite Epc. reflexivity.
+          -- cbn. change (getw s i) with w. rewrite Epc. reflexivity.
           -- unfold pcl, emit_end. gsw s I. cbn [w_pc with_pc w_next w_emit]. split; [exact Hcan|]. split; [|exact Hj]. exact Hce.
           -- unfold sl. gsw s I. cbn [w_pc with_pc]. left. exact Hpos.
       + apply Nat.ltb_ge in Elt.
@@ -167,7 +168,7 @@ Section Main.
              unfold frontier. fold b. replace (w_cons b) with (S (w_cons b - 1)) by lia.
              rewrite (covered_firstn_S _ _ _ Hm).
              pose proof (chain_nth _ _ _ _ (p_chain _ _ _ _ _ _ s I j Hj) Hm) as Hcs. fold b in Hcs.
-             unfold c_end. lia.
+             unfold c_end, c_start, c_size in *. lia.
           -- destruct (is_null m && is_null_opt H max data prev) eqn:Enull.
              ++ (* null look-ahead *)
                 apply andb_true_iff in Enull. destruct Enull as [Nm Np].
@@ -184,18 +185,18 @@ Section Main.
                 destruct (null_zeros m Hcm Nm) as [[Zm Sm]|C]; [|right; exact C].
                 left.
                 assert (Hzz : all_zero (c_start p) (max + max)).
-                { apply all_zero_app; [exact Zp|]. unfold c_end in Hpm. rewrite Sp in Hpm. rewrite <- Hpm. exact Zm. }
+                { apply all_zero_app; [exact Zp|]. replace (c_start p + max) with (c_start m) by (unfold c_end, c_start, c_size in *; lia). exact Zm. }
                 cbn [sync_start] in Elt.
                 apply (pc_only_inv H min max d data nw span s i _ I Ei (with_pc_same H data w (NullLoop c (c_end p - c_start c)))).
-                ** cbn. rewrite Epc. reflexivity.
+                ** cbn. change (getw s i) with w. rewrite Epc. reflexivity.
                 ** unfold pcl, emit_end. gsw s I. cbn [w_pc with_pc w_next w_emit]. split; [exact Hcan|]. split; [|exact Hj]. exact Hce.
-                ** unfold sl. gsw s I. cbn [w_pc with_pc w_next]. gsw s I. fold b. exists m. split; [exact Es|].
-                   unfold c_end in *. split; [lia|]. split.
-                   --- eapply az_sub; [exact Hzz|lia|lia].
+                ** unfold sl. gsw s I. cbn [w_pc with_pc w_next]. gsw s I. change (getw s (w_next (getw s i))) with b. exists m. split; [exact Es|].
+                   split; [unfold c_end, c_start, c_size in *; lia|]. split.
+                   --- eapply az_sub; [exact Hzz|unfold c_end, c_start, c_size in *; lia|unfold c_end, c_start, c_size in *; lia].
                    --- apply (null_chunk_zeros_dont_cut min max d data Hmin Hmax Hpos p Hcp Sp Zp).
              ++ injection E as <-. left.
                 apply (pc_only_inv H min max d data nw span s i _ I Ei (with_pc_same H data w (After c 0))).
-                ** cbn. rewrite Epc. reflexivity.
+                ** cbn. change (getw s i) with w. rewrite Epc. reflexivity.
                 ** unfold pcl, emit_end. gsw s I. cbn [w_pc with_pc w_next w_emit]. split; [exact Hcan|]. split; [|exact Hj]. exact Hce.
                 ** unfold sl. gsw s I. cbn [w_pc with_pc]. left. exact Hpos.
         * destruct ((c_start c =? 0) && (c_size c =? 0)) eqn:Eeq.
@@ -203,13 +204,14 @@ Section Main.
              destruct (canon_bounds min max d data Hmin Hmax Hpos c Hcan) as (_ & Hsz & _). lia.
           -- injection E as <-. left.
              apply (pc_only_inv H min max d data nw span s i _ I Ei (with_pc_same H data w (After c 0))).
-             ++ cbn. rewrite Epc. reflexivity.
+             ++ cbn. change (getw s i) with w. rewrite Epc. reflexivity.
              ++ unfold pcl, emit_end. gsw s I. cbn [w_pc with_pc w_next w_emit]. split; [exact Hcan|]. split; [|exact Hj]. exact Hce.
              ++ unfold sl. gsw s I. cbn [w_pc with_pc]. left. exact Hpos.
     - (* NullLoop *)
       destruct Hpcl as (Hcan & Hce & Hj).
       set (j := w_next w) in *. set (b := getw s j) in *.
       assert (Hij : i < j) by (apply (p_next _ _ _ _ _ _ s I i Ei)).
+      assert (Hij' : i <> w_next (getw s i)) by (unfold j, w in Hij; lia).
       assert (Hkj : k_cur (p_c s) < j).
       { pose proof (active_ge_kcur min max d data nw span s i I Ei Hactb). lia. }
       pose proof (p_sync _ _ _ _ _ _ s I j Hj Hkj) as Hsy. unfold sync_ok in Hsy. fold b in Hsy.
@@ -227,16 +229,16 @@ Section Main.
           apply (recv_inv H min max d data Hmin Hmax Hpos nw span Hspan s i v (NullLoop c (n + max)) I Ei Hactb Hj Eh eq_refl).
           -- unfold pcl, emit_end. gsw s I. cbn [w_pc with_pc w_next w_emit]. split; [exact Hcan|]. split; [|exact Hj]. exact Hce.
           -- unfold sl. gsw s I. cbn [w_pc with_pc w_next]. gsw s I.
-             fold b. cbn [recv_w w_sync]. exists v. split; [reflexivity|].
-             unfold c_end in *. split; [lia|]. split; [|exact Zd].
-             apply all_zero_app; [exact Zc|]. replace (c_start c + (n + max)) with (c_start v) by lia. exact Zv.
+             change (getw s (w_next (getw s i))) with b. cbn [recv_w w_sync]. exists v. split; [reflexivity|].
+             split; [unfold c_end, c_start, c_size in *; lia|]. split; [|exact Zd].
+             apply all_zero_app; [exact Zc|]. replace (c_start c + (n + max)) with (c_start v) by (unfold c_end, c_start, c_size in *; lia). exact Zv.
         * left.
           apply (recv_inv H min max d data Hmin Hmax Hpos nw span Hspan s i v (After c n) I Ei Hactb Hj Eh eq_refl).
           -- unfold pcl, emit_end. gsw s I. cbn [w_pc with_pc w_next w_emit]. split; [exact Hcan|]. split; [|exact Hj]. exact Hce.
           -- unfold sl. gsw s I. cbn [w_pc with_pc]. right. split; assumption.
       + injection E as <-. left.
         apply (pc_only_inv H min max d data nw span s i _ I Ei (with_pc_same H data w (After c n))).
-        * cbn. rewrite Epc. reflexivity.
+        * cbn. change (getw s i) with w. rewrite Epc. reflexivity.
         * unfold pcl, emit_end. gsw s I. cbn [w_pc with_pc w_next w_emit]. split; [exact Hcan|]. split; [|exact Hj]. exact Hce.
         * unfold sl. gsw s I. cbn [w_pc with_pc]. right. split; assumption.
     - (* After: advance and emit the null chunks *)
@@ -256,7 +258,7 @@ Section Main.
         assert (Hkn : k * max <= n) by (unfold k; rewrite Nat.mul_comm; apply Nat.mul_div_le; lia).
         destruct (canon_bounds min max d data Hmin Hmax Hpos c Hcan) as (_ & Hsz & _).
         assert (Hz : all_zero (c_end c) (k * max)).
-        { eapply az_sub; [exact Zc|unfold c_end; lia|unfold c_end; lia]. }
+        { eapply az_sub; [exact Zc|unfold c_end, c_start, c_size in *; lia|unfold c_end, c_start, c_size in *; lia]. }
         destruct (null_chunks_facts (c_end c) Zd k Hz) as (F1 & F2 & _). split; assumption. }
       destruct Hfacts as [F1 F2].
       apply (push_inv H min max d data Hmin Hmax Hpos nw span Hspan s i _ Skip I Ei Hactb).
@@ -272,7 +274,7 @@ Section Main.
         apply Nat.ltb_lt in E1. rewrite (p_n _ _ _ _ _ _ s I) in E1. apply negb_true_iff in E2. apply Nat.leb_le in E3.
         apply (skip_inv H min max d data Hmin Hmax Hpos nw span Hspan s i I Ei Hactb E1 E2 E3).
       + apply (pc_only_inv H min max d data nw span s i _ I Ei (with_pc_same H data w Top)).
-        * cbn. rewrite Epc. reflexivity.
+        * cbn. change (getw s i) with w. rewrite Epc. reflexivity.
         * unfold pcl. gsw s I. exact Logic.I.
         * unfold sl. gsw s I. exact Logic.I.
     - discriminate.
@@ -280,7 +282,7 @@ Section Main.
 
   (* ---------- the collector ---------- *)
 
-  Lemma collector_step_inv s s' : PInv s -> step_collector max data false s = Some s' -> PInv s'.
+  Lemma collector_step_inv s s' : PInv s -> step_collector data false s = Some s' -> PInv s'.
   Proof.
     intros I E. unfold step_collector in E.
     destruct (k_done (p_c s)) eqn:Ed; [discriminate|].
@@ -303,3 +305,97 @@ Section Main.
     - left. eapply collector_step_inv; eauto.
   Qed.
 End Main.
+
+(* ---------- the initial state and the theorem for every schedule ---------- *)
+
+Section Final.
+  Variable H : bytes -> id.
+  Variables (min max : nat) (d : N) (data : bytes).
+  Hypothesis Hmin : W <= min.
+  Hypothesis Hmax : min <= max.
+  Hypothesis Hpos : 0 < max.
+  Variable n : nat.
+  Hypothesis Hn : 1 <= n.
+
+  Let nw := eff_n max data n.
+  Let span := length data / nw.
+
+  Lemma nw_pos : 1 <= nw.
+  Proof. unfold nw, eff_n. destruct (Nat.min_spec n (length data / max + 1)) as [[_ E]|[_ E]]; rewrite E; lia. Qed.
+
+  Lemma span_ok : forall i, i < nw -> span * i <= length data.
+  Proof.
+    intros i Hi. pose proof nw_pos. unfold span.
+    transitivity (length data / nw * nw); [apply Nat.mul_le_mono_l; lia|].
+    rewrite Nat.mul_comm. apply Nat.mul_div_le. lia.
+  Qed.
+
+  Lemma getw_init i : i < nw -> getw (pinit max data n) i = init_w nw span i.
+  Proof.
+    intros Hi. unfold getw, pinit. cbn [p_w]. fold nw. fold span.
+    rewrite nth_indep with (d' := init_w nw span 0) by (rewrite map_length, seq_length; exact Hi).
+    rewrite map_nth with (d := 0). rewrite seq_nth by exact Hi. reflexivity.
+  Qed.
+
+  Lemma init_inv : PInv min max d data nw span (pinit max data n).
+  Proof.
+    pose proof nw_pos as Hnw.
+    constructor.
+    - unfold nworkers, pinit. cbn. fold nw. now rewrite map_length, seq_length.
+    - intros i Hi. rewrite getw_init by exact Hi. exact Logic.I.
+    - intros i Hi. rewrite getw_init by exact Hi. constructor.
+    - intros i Hi. unfold emit_end. rewrite getw_init by exact Hi. cbn. unfold covered. cbn. lia.
+    - intros i Hi. rewrite getw_init by exact Hi. cbn. lia.
+    - intros i Hi. rewrite getw_init by exact Hi. cbn. lia.
+    - intros i Hi. rewrite getw_init by exact Hi. reflexivity.
+    - intros i Hi. rewrite getw_init by exact Hi. cbn. discriminate.
+    - intros i Hi. unfold pcl. rewrite getw_init by exact Hi. exact Logic.I.
+    - intros i Hi _. unfold sync_ok. rewrite getw_init by exact Hi. reflexivity.
+    - intros a a' Hlt Ha' _. rewrite getw_init by lia. cbn. lia.
+    - intros a j Haj Hjn Hj. rewrite getw_init in Hjn by lia. cbn in Hjn. lia.
+    - intros a x Hax Hxn Hx. rewrite getw_init in Hxn by lia. cbn in Hxn. lia.
+    - intros a Ha. unfold sl. rewrite getw_init by exact Ha. exact Logic.I.
+    - intros i Hi. cbn in Hi. lia.
+    - cbn. split; constructor.
+    - intros _. cbn [p_c pinit k_cur]. split; [lia|]. left. unfold stateA. cbn [p_c pinit k_cur k_out]. split.
+      + intros x Hx. lia.
+      + unfold frontier. rewrite getw_init by lia. cbn. unfold covered. cbn. lia.
+    - cbn. discriminate.
+    - intros a Ha _ Hact. rewrite getw_init in Hact by exact Ha. cbn in Hact. discriminate.
+  Qed.
+
+  Notation step := (pstep H min max d data false).
+
+  Lemma run_inv_or sched : forall s,
+    PInv min max d data nw span s \/ Collision H ->
+    PInv min max d data nw span (run step sched s) \/ Collision H.
+  Proof.
+    induction sched as [|t r IH]; intros s Hs; [exact Hs|].
+    cbn. apply IH. destruct Hs as [I|C]; [|right; exact C].
+    unfold run1. destruct (step s t) as [s'|] eqn:E; [|left; exact I].
+    apply (pstep_inv H min max d data Hmin Hmax Hpos nw span span_ok s t s' I E).
+  Qed.
+
+  (* For EVERY schedule of the n chunk workers and the collector: when the collector is done the
+     index it has assembled is exactly the single-stream index -- unless two different byte
+     strings hash like max zero bytes. *)
+  Theorem pchunk_eq_seq sched :
+    let s := run step sched (pinit max data n) in
+    k_done (p_c s) = true ->
+    k_out (p_c s) = seq_index min max d data \/ Collision H.
+  Proof.
+    intros s Hd. destruct (run_inv_or sched (pinit max data n) (or_introl init_inv)) as [I|C]; [left|right; exact C].
+    apply (final_index min max d data Hmin Hmax Hpos nw span (run step sched (pinit max data n)) I Hd).
+  Qed.
+
+  (* and at every moment what has been collected so far is a prefix of it *)
+  Theorem pchunk_prefix sched :
+    let s := run step sched (pinit max data n) in
+    (exists rest, seq_index min max d data = k_out (p_c s) ++ rest) \/ Collision H.
+  Proof.
+    intros s. destruct (run_inv_or sched (pinit max data n) (or_introl init_inv)) as [I|C]; [left|right; exact C].
+    destruct (p_out _ _ _ _ _ _ _ I) as [Hc Hf].
+    destruct (chain_canon_prefix min max d data Hmin Hmax Hpos _ 0 Hc Hf) as (rest & E1 & _).
+    exists rest. unfold seq_index. unfold seq_from in E1. cbn [skipn] in E1. exact E1.
+  Qed.
+End Final.
